@@ -1,6 +1,8 @@
 package ed25519
 
 import (
+	"sync"
+	"runtime"
 	"crypto/sha512"
 	"bytes"
 	"crypto"
@@ -562,6 +564,71 @@ func jobC03(c *rt.Ctx) {
 					c.Violation(fmt.Sprintf("C03 msglen-sweep batch variant=%s", vs.v), fmt.Sprintf("own signature over a %d-byte message rejected as batch member", l), map[string]interface{}{"msg_len": l, "variant": vs.String()})
 				}
 			}
+		}
+	}
+	// calls in flight: k = 1..6, 8 batches of the library's OWN signatures (context "in-flight") are parked
+	// inside their entropy readers while three other batches of own signatures (pure; ZIP-215; a third
+	// context) run to completion; all of them - the parked ones after their release - accept every entry
+	c.Require("calls-in-flight")
+	for _, g := range []int{1, 16} {
+		for _, k := range []int{1, 2, 3, 4, 5, 6, 8} {
+			if !c.Take() {
+				continue
+			}
+			c.Class("calls-in-flight")
+			c.Distinct(fmt.Sprintf("inflight %d %d", g, k), true)
+			old := runtime.GOMAXPROCS(g)
+			pvs := variantSpec{ref.Ctx, "in-flight"}
+			pe := make([][]triple, k)
+			for i := range pe {
+				for j := 0; j < 8; j++ {
+					pe[i] = append(pe[i], libTriple(4100+j, []byte{byte(i), byte(j)}, pvs))
+				}
+			}
+			type pres struct {
+				all   bool
+				valid []bool
+				err   error
+				pv    interface{}
+			}
+			results := make([]pres, k)
+			entered := make(chan int, k)
+			release := make(chan struct{})
+			var wg sync.WaitGroup
+			for i := 0; i < k; i++ {
+				wg.Add(1)
+				go func(i int) {
+					defer wg.Done()
+					rd := &parkingReader{entered: entered, release: release, id: i, r: rt.NewRng(c.Seed, fmt.Sprint("c03p", i))}
+					a, v, e, pv := implBatchReader(pe[i], pvs, false, rd)
+					results[i] = pres{a, v, e, pv}
+				}(i)
+			}
+			for i := 0; i < k; i++ {
+				<-entered
+			}
+			for mi, mv := range []variantSpec{vPure, vPure, {ref.Ctx, "third"}} {
+				var es []triple
+				for j := 0; j < 8+56*(mi%2); j++ {
+					es = append(es, libTriple(4200+j%7, []byte{byte(mi), byte(j)}, mv))
+				}
+				all, valid, err, pv := implBatch(es, mv, mi == 1, rt.NewRng(c.Seed, "c03m"))
+				c.Step(1)
+				ok := pv == nil && err == nil && all && len(valid) == len(es)
+				if !ok {
+					c.Violation("C03 calls-in-flight main", fmt.Sprintf("a batch of own signatures (%s) rejected while %d other calls were in flight (GOMAXPROCS=%d): all=%v err=%v panic=%v", mv, k, g, all, err, pv), map[string]interface{}{"in_flight": k, "gomaxprocs": g})
+				}
+			}
+			close(release)
+			wg.Wait()
+			for i, r := range results {
+				ok := r.pv == nil && r.err == nil && r.all && len(r.valid) == 8
+				if !ok {
+					c.Violation("C03 calls-in-flight parked", fmt.Sprintf("a batch of own signatures under context %q that was in flight while other batches ran (%d calls in flight, GOMAXPROCS=%d) came back all=%v valid=%v err=%v panic=%v", pvs.ctx, k, g, r.all, r.valid, r.err, r.pv), map[string]interface{}{"in_flight": k, "gomaxprocs": g, "parked_call": i})
+					break
+				}
+			}
+			runtime.GOMAXPROCS(old)
 		}
 	}
 	// a key derived from the front of a larger buffer (a 64-byte KDF output, a record) that the caller
